@@ -12,6 +12,9 @@ Ties (model evaluated by vm_compute inside coqc, implementation = the real code 
                                   exported order, which must be the order the run exported and wrote.
 Oracle (independent, brute force, reads only the written file): for every pair i < j of traceEvents
   (ts_i, -dur_i) <= (ts_j, -dur_j) with a missing dur counted as 0, and every ts a real number.
+End-to-end inputs: gen_scenario (host slices, Prep/Exec kernels, collectives), gen_phase_scenario (device operations as
+  DmaI/Prep/Exec/DmaO phases, zero-length phases, streams appearing late) and the large scenarios below; option sets
+  E2E_OPTS plus OFF_OPTS = every subset of {--flow, --disable_tb, -t, empty -C}, enumerated by index.
 Size x ties (oracle only, no Coq literal - the model's insertion sort is quadratic): operation sequences with
   255..8400 queued events on the real EventSortingContext (contract oracle), and end-to-end scenarios of 3000..6000
   slices on 1-3 ranks in which almost every ts value carries several nested slices of different duration
@@ -92,7 +95,11 @@ ASSUMPTIONS = [
     "launch flows, tb refinement) sit in the prefix, whose behaviour the theorem does not depend on beyond being a "
     "function of the input stream - for them the statement is 'whatever reaches the last stage', validated end to end",
     "option domain of the end-to-end tie: default / power_ts4 / prep_queue / coll_bw counters, --keep_prep, --flow, --tb, "
-    "--disable_tb, -O drop|tid, -M, -t, --drop_globals, --comm_summarize_seq on 1..4 ranks; small scenarios (< 200 "
+    "--disable_tb, -O drop|tid, -M, -t, --drop_globals, --comm_summarize_seq on 1..4 ranks, and every subset of the "
+    "switches {--flow, --disable_tb, -t, empty -C} (enumerated, each visited by every run); device operations written "
+    "as their four phases with zero-length phases (TSk == TSk+1) on one, two, a late-appearing second or four "
+    "streams - a Cmpt Exec of zero cycles is excluded (pipeline/stats.py asserts dur > 0: the run aborts without "
+    "an export); small scenarios (< 200 "
     "exported events) and, for the size x ties region, scenarios of 3000..6000 slices on 1..3 ranks",
 ]
 
@@ -519,6 +526,77 @@ def gen_scenario(r):
     return {"kind": "e2e", "files": files, "R": R, "coll": coll}
 
 
+# option sets that switch synthesizers OFF: every subset of {empty -C, --disable_tb, -t}, with and without --flow.
+# Enumerated by index (never sampled): every run of the check visits each of the 16 sets.  (-C takes a list: it is
+# always written last so that it stays empty.)
+OFF_OPTS = [[o for o, on in (("--flow", m & 8), ("--disable_tb", m & 2), ("-t", m & 4), ("-C", m & 1)) if on]
+            for m in range(16)]
+
+SORTER_ARGV += [o for o in OFF_OPTS if o not in SORTER_ARGV]
+
+PHASES = [" DmaI", " Cmpt Prep", " Cmpt Exec", " DmaO"]
+
+
+def gen_phase_scenario(r):
+    """R one-rank FLEX files of device operations written as their phases DmaI / Cmpt Prep / Cmpt Exec / DmaO (one
+    record per phase, all carrying the op's TS1..TS5; phase k spans TS(k+1)..TS(k+2)), on a coarse grid shared by all
+    ranks.  Any phase may have ZERO length on the device (TSk == TSk+1, common in real traces): its host record then
+    still took some time (ingestion drops zero-duration records) and ends where the phase ends, so the tool itself
+    turns it into a zero-length slice - tied in ts with the neighbouring phases, with the counters sampled at phase
+    boundaries and possibly with metadata.  The phases run on one stream, on separate DMA/compute streams, on a DMA
+    stream that first shows up in the middle of the trace, or on one stream per phase.  All times are multiples of
+    0.25 us and all cycle values multiples of 250 (1000 cycles per us), so the arithmetic of the tool is exact and
+    equal ts values are really equal."""
+    R = r.choice([1, 1, 2, 2, 3])
+    T0 = 1000.0
+    step = r.choice([1.0, 2.0, 0.5])
+    p_zero = r.choice([0.15, 0.3, 0.5])
+    files, uid = [], 0
+    for pid in range(R):
+        evs = []
+        c0 = 1000000 + r.randrange(0, 1000) * 500
+        n_ops = r.randint(2, 5)
+        layout = r.choice(["one", "two", "switch", "switch", "four"])
+        k_sw = r.randint(1, n_ops - 1)
+        b = step * r.choice([0, 0, 1, 2])
+        prev_end = None
+        for k in range(n_ops):
+            which = r.choice([[0, 1, 2, 3], [0, 1, 2, 3], [0, 1, 2, 3], [1, 2], [0, 2, 3], [2], [0, 1, 2]])
+            ln = [0.0 if r.random() < p_zero else step * r.choice([1, 1, 2, 3]) for _ in range(4)]
+            if ln[2] == 0.0:                  # a Cmpt Exec of zero cycles is outside the tool's input domain
+                ln[2] = step                  # (pipeline/stats.py asserts dur > 0 for it: the run aborts, no export)
+            first_zero = ln[which[0]] == 0.0  # (every phase subset holds the Exec, so every op has a real length)
+            if prev_end is not None:
+                b = prev_end + step * r.choice([0, 1, 1, 2])
+                if first_zero and b - prev_end < step:
+                    b = prev_end + step       # the host record of a zero-length first phase starts half a step early
+            bounds = [b]
+            for i in range(4):
+                bounds.append(bounds[-1] + ln[i])
+            ts5 = {f"TS{i + 1}": str(c0 + int(round(bounds[i] * 1000))) for i in range(5)}
+            for i in which:
+                uid += 1
+                end = T0 + bounds[i + 1]
+                hdur = ln[i] if ln[i] > 0 else step / 2
+                dma = i in (0, 3)
+                tid = {"one": 7, "two": 8 if dma else 7, "switch": 8 if (dma and k >= k_sw) else 7,
+                       "four": 7 + i}[layout]
+                evs.append({"name": f"op{k}{PHASES[i]}", "ph": "X", "pid": pid, "tid": tid, "ts": end - hdur,
+                            "dur": hdur, "args": dict(ts5, Power=str(1000 + 37 * uid), uid=uid)})
+            prev_end = bounds[4]
+        for tid in (3, 4):
+            t = T0 + step * r.choice([0, 0, 1, 2, 4])
+            for k in range(r.randint(0, 3)):
+                uid += 1
+                d = step * r.choice([1, 2, 2, 3, 4, 6])
+                evs.append({"name": f"host{tid}_{k}", "ph": "X", "pid": pid, "tid": tid, "ts": t, "dur": d,
+                            "args": {"uid": uid}})
+                t += d + step * r.choice([0, 0, 1, 2])
+        evs.sort(key=lambda e: e["ts"])          # stable: a FLEX file is ordered by ts
+        files.append(evs)
+    return {"kind": "e2e", "files": files, "R": R, "coll": False, "phases": True}
+
+
 BIG_OPTS = [[], ["-C", "power_ts4", "prep_queue", "--keep_prep"], ["--flow"], ["--tb"], ["-O", "drop", "-t"], ["-C"],
             ["--drop_globals", "-C", "prep_queue"], ["-M", "--flow", "--keep_prep"]]
 
@@ -860,7 +938,9 @@ def run(ctx):
     corpus = load_corpus()
     mism, fails, ties, notes = [], [], [], []
     dist = {"kernel_cfg": {}, "kernel_ops": {}, "kernel_big_queue": {}, "e2e_ranks": {}, "e2e_opts": {},
-            "e2e_synth_ph": {}, "e2e_errors": {}, "e2e_events": {}, "e2e_ties": 0, "e2e_big": []}
+            "e2e_synth_ph": {}, "e2e_errors": {}, "e2e_events": {}, "e2e_ties": 0, "e2e_big": [],
+            "e2e_zero_length_slices": 0, "e2e_zero_length_slices_tied_with_event_without_dur": 0,
+            "e2e_no_counter_no_flow_runs_with_metadata": 0}
     from aiu_trace_analyzer.constants import TS_CYCLE_KEY
 
     # ---------------- tie 1: _parse_sortkey
@@ -979,6 +1059,17 @@ def run(ctx):
         sc = gen_scenario(r)
         for opts in ([E2E_OPTS[k % len(E2E_OPTS)], r.choice(E2E_OPTS)] if ctx.quick() else r.sample(E2E_OPTS, 3)):
             e2e.append((sc, opts))
+    # option sets that switch synthesizers off, by index: each of the 16 sets meets >= ctx.pick(9, ..) scenarios
+    for k in range(n_sc):
+        e2e.append((e2e[n_corpus_e + 2 * k][0] if ctx.quick() else gen_scenario(r), OFF_OPTS[k % len(OFF_OPTS)]))
+    # device operations written as phases, any of which may be of zero length (gen_phase_scenario), under the OFF
+    # sets and the ordinary sets, by index
+    n_ph = ctx.pick(120, 1500)
+    ph_opts = OFF_OPTS + E2E_OPTS
+    for k in range(n_ph):
+        sc = gen_phase_scenario(r)
+        e2e.append((sc, ph_opts[k % len(ph_opts)]))
+        e2e.append((sc, r.choice(ph_opts)))
     # size x ties: a few large scenarios (oracle on the written file; thorough: the first one also goes through the model)
     n_big = ctx.pick(4, 40)
     for k in range(n_big):
@@ -1029,6 +1120,14 @@ def run(ctx):
         for p, n in phs.items():
             if p in SYNTH_PH:
                 dist["e2e_synth_ph"][p] = dist["e2e_synth_ph"].get(p, 0) + n
+        nodur_ts = {e.get("ts") for e in te if "dur" not in e}
+        for e in te:
+            if e.get("ph") == "X" and e.get("dur") == 0:
+                dist["e2e_zero_length_slices"] += 1
+                if e.get("ts") in nodur_ts:
+                    dist["e2e_zero_length_slices_tied_with_event_without_dur"] += 1
+        if "M" in phs and not any(p in phs for p in ("C", "s", "f")):
+            dist["e2e_no_counter_no_flow_runs_with_metadata"] += 1
         tsl = [e.get("ts") for e in te]
         nt = len(tsl) - len(set(tsl))
         dist["e2e_ties"] += nt
@@ -1064,7 +1163,10 @@ def run(ctx):
                 f"({nontriv_k}). Streams: {len(keys)} sortkey strings; {len(kcases)} operation sequences "
                 f"({n_corpus_k} corpus) over all filter/key/global variants, 45% in the final sort's configuration; "
                 f"{len(SORTER_ARGV)} argument vectors for the sorter configurations; {len(e2e)} end-to-end runs "
-                f"({n_corpus_e} corpus) = {n_sc} generated 1-4 rank scenarios x option sets {E2E_OPTS} + {n_big} large "
+                f"({n_corpus_e} corpus) = {n_sc} generated 1-4 rank scenarios x option sets {E2E_OPTS} and, by index, the "
+                f"16 switch-off sets (subsets of --flow/--disable_tb/-t/empty -C) + {n_ph} scenarios of device operations "
+                f"written as DmaI/Prep/Exec/DmaO phases of which any but the Exec may have zero length, x the same 30 "
+                f"option sets by index + {n_big} large "
                 f"scenarios (3000..6000 slices, 1-3 ranks, nested equal-ts groups; counted as non-trivial when the export "
                 f"holds >= 1000 events and >= 100 ts values with different durations); {n_bigk} large operation "
                 f"sequences (255..8400 queued events), oracle only",
@@ -1098,8 +1200,8 @@ def search(ctx, res, broken):
                     if fl:
                         return [shrink_kernel(fl[0])]
             elif n % 3:
-                sc = gen_scenario(r)
-                for opts in r.sample(E2E_OPTS, 3):
+                sc = gen_phase_scenario(r) if n % 2 else gen_scenario(r)
+                for opts in r.sample(E2E_OPTS, 2) + [OFF_OPTS[n % len(OFF_OPTS)]]:
                     fl = e2e_failures(sc, opts, run_e2e(sc, opts, ctx.work, paths))
                     if fl:
                         return [shrink_e2e(fl[0], ctx, paths, budget=45)]
